@@ -105,10 +105,14 @@ def run(ctx):
   if ctx.quick:
     plans = [(base, 4),
              (dict(base, starts=[[('CreateStudyMd', 's')]]), 2),      # from a study created with unsorted / repeated spec metadata
+             # from "the study has been used and then deleted": the stored data equal those of a server that never saw the
+             # study (so the BFS merges the two), but a server may remember
+             (dict(base, fresh_backends=True, starts=[[('CreateStudy', 's'), ('CreateTrial', 's', 'requested', 0.25), ('DeleteStudy', 's')],
+                                                    [('CreateStudy', 's'), ('CreateTrial', 's', 'requested', 0.25), ('SuggestTrials', 's', 'a', 2), ('ListTrials', 's'), ('DeleteStudy', 's')]]), 0),
              # from a study that already holds 11 trials (ids with one and with two digits; REQUESTED and ACTIVE ones)
              (dict(base, max_trials=13, max_id=13, max_ops=3, starts=[[('CreateStudy', 's')] + [('CreateTrial', 's', 'requested', 0.25)] * 9 + [('SuggestTrials', 's', 'a', 2)] + [('CreateTrial', 's', 'requested', 0.25)] * 2]), 1),
              (dict(multi, studies=('s_1', 'sx1', 'p@s_1')), 5),
-             (dict(multi, studies=('S%', 's1', 'p@S%')), 4)]
+             (dict(multi, studies=('S%', 's1', 's10')), 4)]      # a LIKE wildcard, and one id that is a strict prefix of another
   else:
     plans = [(dict(base, max_trials=3, max_meas=2, max_ops=3, max_id=5), 6),
              (dict(base, starts=[[('CreateStudyMd', 's')]]), 4),
